@@ -9,6 +9,7 @@ pub mod c09;
 pub mod c10;
 pub mod c11;
 pub mod c12;
+pub mod c13;
 pub mod common;
 
 pub fn run(ctx: &Ctx) -> Option<CheckOutput> {
@@ -22,6 +23,7 @@ pub fn run(ctx: &Ctx) -> Option<CheckOutput> {
 		"C10" => c10::run(ctx),
 		"C11" => c11::run(ctx),
 		"C12" => c12::run(ctx),
+		"C13" => c13::run(ctx),
 		_ => return None,
 	})
 }
@@ -49,6 +51,7 @@ pub fn replay_file(path: &str) -> i32 {
 			"C10" => c10::replay(case),
 			"C11" => c11::replay(case),
 			"C12" => c12::replay(case),
+			"C13" => c13::replay(case),
 			_ => Some(format!("no replayer for {prop}")),
 		}
 	};
